@@ -9,7 +9,7 @@ from petl.compat import next, string_types, reduce, text_type
 
 from petl.errors import ArgumentError
 from petl.util.base import Table, iterpeek, rowgroupby
-from petl.util.base import values
+from petl.util.base import values, data
 from petl.util.counting import nrows
 from petl.transform.sorts import sort, mergesort
 from petl.transform.basics import cut
@@ -284,7 +284,11 @@ def itersimpleaggregate(table, key, aggregation, value, field):
         if aggregation == len:
             yield nrows(table),
         else:
-            yield aggregation(values(table, value)),
+            if value is None:
+                # whole rows, as for the groups of a keyed aggregation
+                yield aggregation(tuple(row) for row in data(table)),
+            else:
+                yield aggregation(values(table, value)),
     else:
         for k, grp in rowgroupby(table, key, value):
             yield k, aggregation(grp)
